@@ -126,6 +126,8 @@ def gen(rng, i, tier):
             v = dec_str(rand_dec(rng))
             row = rng.choice([b + "=" + v] * 6 + [b, b + "=" + v + "=1", "=" + v, b + "=", b + " = " + v, "x=" + v])
             rows.append(rng.choice(["", " ", "\n"]) + row + rng.choice(["", " ", "\n"]))
+        if not rows and rng.random() < 0.6:
+            return {"k": "evstr", "s": rng.choice(["", " ", "\n", "\r\n", "  \n ", "\t"])}
         return {"k": "evstr", "s": ",".join(rows)}
     if k == "parse":
         alphabet = "0123456789..-+ e/_\t"
@@ -375,6 +377,8 @@ def oracle(c, o):
     """the property restated directly on what the library returned"""
     k = c["k"]
     if isinstance(o, dict):
+        if k == "evstr" and (c["s"] or "").strip() == "":
+            return "a timing string of blanks and line breaks only holds no event, yet parsing it raised %s" % o.get("__harness_exc__")
         return "library raised %s" % o.get("__harness_exc__") if k not in ("parse", "evstr") else None
     if k == "round":
         x = Fraction(c["n"], c["d"])
